@@ -86,7 +86,7 @@ theorem urlencode_grammar (ps : List (Text × QVal)) : pctWF isQueryC (urlencode
 /-! ## 3. route_url -/
 
 /-- Hypotheses shared by the URL-level theorems: the application URL in front is `scheme://authority` + a path
-prefix (this is a theorem for the override branch — `app_url_shape_override_partial` — and the caller's promise for an
+prefix (this is a theorem for the override branch — `app_url_shape_override` — and the caller's promise for an
 explicit `_app_url`), and the route pattern starts with `/` (`_compile_route` guarantees it). -/
 structure UrlCtx (e : Env) (o : Ovr) (sch auth pre : Text) : Prop where
   app : appUrlOf e o = sch ++ colonSlashSlash ++ auth ++ pre
@@ -213,10 +213,9 @@ theorem anchor_roundtrip (e : Env) (o : Ovr) (sch auth pre : Text) (hc : UrlCtx 
 /-- **overrides honoured**: with `_scheme` / `_host` / `_port` (and no `_app_url`) the application URL is
 `scheme://host[:port]` + quoted script name, where scheme, host and port follow the declarative priority list
 `wanted` (`_port`, else the default port of an explicit `_scheme`, else the port written in the host text, else
-`SERVER_PORT`; host from `_host`, else `Host`, else `SERVER_NAME`, without its port).
-Note: `wanted` takes "the host text up to its first `:`" as the host name, which is the host name only for a
-non-bracketed host; for `[::1]:8080` it is `[` — that input is F-C17b (`ipv6_override_breaks`), where the code
-follows this rule and the result is not a URL. -/
+`SERVER_PORT`; host from `_host`, else `Host`, else `SERVER_NAME`, without its port).  "Host without its port" is
+`splitHostPort`, whose meaning on well-formed host texts is `split_host_port_spec` below: a bracketed literal
+stays whole. -/
 theorem overrides_honoured (e : Env) (o : Ovr) (hno : o.appUrl = none)
     (hov : (o.scheme.isSome || o.host.isSome || o.port.isSome) = true) :
     appUrlOf e o = originText (wanted e o.scheme o.host o.port) ++ quotedScriptName e := by
@@ -227,7 +226,7 @@ theorem overrides_honoured (e : Env) (o : Ovr) (hno : o.appUrl = none)
 scheme in force (443 for https, 80 for http), or empty. -/
 theorem default_ports_elided (e : Env) (scheme host port : Option Text) :
     authText (wanted e scheme host port) =
-      (cut ':' (effHostText e host)).1 ++
+      (splitHostPort (effHostText e host)).1 ++
         (if defaultPort (scheme.getD e.scheme) = some (effPort e scheme host port) ∨ effPort e scheme host port = []
          then [] else ':' :: effPort e scheme host port) := by
   simp only [authText, wanted]
@@ -244,22 +243,21 @@ example : defaultPort sHttps = some p443 ∧ defaultPort sHttp = some p80 ∧ de
 /-- without `_app_url`, under well-formed scheme / host / port texts (override branch: the `wanted` ones; no
 override: the request's own, as WebOb's `host_url` reads them), the application URL has the shape the URL-level
 theorems need: `UrlCtx` is then a theorem, not an assumption.
-PARTIAL: `OriginTextsOk` admits only unreserved / sub-delim / `:` characters in host and port texts, so a
-bracketed IPv6 `Host` / `_host` is not covered.  In the override branch that is a real defect of the code
-(`ipv6_override_breaks`, F-C17b); in the no-override branch (WebOb's `host_url`, which handles brackets) it is
-only a limit of this proof, covered by the correspondence run. -/
-theorem app_url_shape_partial (e : Env) (o : Ovr) (hno : o.appUrl = none)
+`OriginTextsOk`: the scheme is a scheme; the host is a reg-name or a bracketed IP literal `[…]` accepted by
+`_check_bracketed_host` (`hostOk`); the port text has only unreserved / sub-delim / `:` characters.  Bracketed IPv6
+hosts are covered (F-C17b, fixed by a63b542).  Outside: a `[` without its `]` (`unbalanced_bracket_outside`). -/
+theorem app_url_shape (e : Env) (o : Ovr) (hno : o.appUrl = none)
     (htx : OriginTextsOk (originOf e o)) (hsn : ScriptOk e) :
     UrlCtx e o (originOf e o).1 (authText (originOf e o)) (quotedScriptName e) :=
   ⟨by rw [appUrlOf_eq gen_facts e o hno, originText_eq], originOk_of_texts _ htx, authText_wf _ htx,
    bodyOk_script gen_facts e hsn⟩
 
-theorem app_url_shape_override_partial (e : Env) (o : Ovr) (hno : o.appUrl = none)
+theorem app_url_shape_override (e : Env) (o : Ovr) (hno : o.appUrl = none)
     (hov : (o.scheme.isSome || o.host.isSome || o.port.isSome) = true)
     (htx : OriginTextsOk (wanted e o.scheme o.host o.port)) (hsn : ScriptOk e) :
     UrlCtx e o (wanted e o.scheme o.host o.port).1 (authText (wanted e o.scheme o.host o.port)) (quotedScriptName e) := by
   have h : originOf e o = wanted e o.scheme o.host o.port := by simp only [originOf, hov, if_true]
-  have := app_url_shape_partial e o hno (by rw [h]; exact htx) hsn
+  have := app_url_shape e o hno (by rw [h]; exact htx) hsn
   rwa [h] at this
 
 /-- non-vacuity: `Host: ex.com:8080`, `_scheme='https'`, `SCRIPT_NAME='/a b'` satisfy the hypotheses … -/
@@ -271,15 +269,22 @@ example : OriginTextsOk (wanted ⟨sHttp, some ['e', 'x', '.', 'c', 'o', 'm', ':
         (some sHttps) none none).2.2 = none := by decide
       rw [this] at h; cases h⟩, .inr ⟨_, rfl⟩⟩
 
+/-- … so does `Host: [2001:db8::1]:8443` with `_port='81'` (a bracketed IPv6 literal) … -/
+example : OriginTextsOk (wanted ⟨sHttp, some "[2001:db8::1]:8443".toList, ['l'], p80, []⟩ none none (some ['8', '1'])) := by
+  have hw : wanted ⟨sHttp, some "[2001:db8::1]:8443".toList, ['l'], p80, []⟩ none none (some ['8', '1'])
+      = (sHttp, "[2001:db8::1]".toList, some ['8', '1']) := by decide
+  rw [hw]
+  exact ⟨by decide, by decide, by intro p h; cases h; decide⟩
+
 /-- … and so does an explicit `_app_url = 'http://x/y'` (the caller's promise, checked here for a concrete one),
 with a route pattern `/s/{v}`. -/
 example : UrlCtx ⟨sHttp, none, ['l'], p80, []⟩ { appUrl := some ['h', 't', 't', 'p', ':', '/', '/', 'x', '/', 'y'] }
     ['h', 't', 't', 'p'] ['x'] ['/', 'y'] ∧ RouteWF [.lit ['/', 's', '/'], .ph ['v']] :=
-  ⟨⟨rfl, ⟨by decide, by decide, by decide⟩, by decide, ⟨.inr ⟨_, rfl⟩, by decide⟩⟩, by decide⟩
+  ⟨⟨rfl, ⟨by decide, by decide, by decide, by decide⟩, by decide, ⟨.inr ⟨_, rfl⟩, by decide⟩⟩, by decide⟩
 
-/-- scheme, host and port read back by the parser from a `route_url` result are the wanted ones.
-PARTIAL: not for bracketed IPv6 hosts (see `app_url_shape_partial`, `ipv6_override_breaks`). -/
-theorem overrides_read_back_partial (e : Env) (o : Ovr) (hno : o.appUrl = none)
+/-- scheme, host and port read back by the parser from a `route_url` result are the wanted ones — for reg-name
+hosts and for bracketed IPv6 / IPvFuture hosts alike. -/
+theorem overrides_read_back (e : Env) (o : Ovr) (hno : o.appUrl = none)
     (hov : (o.scheme.isSome || o.host.isSome || o.port.isSome) = true)
     (htx : OriginTextsOk (wanted e o.scheme o.host o.port)) (hsn : ScriptOk e)
     (routes : Routes) (name : Text) (pieces : List Piece) (hr : routes.lookup name = some pieces)
@@ -287,7 +292,7 @@ theorem overrides_read_back_partial (e : Env) (o : Ovr) (hno : o.appUrl = none)
     (hu : routeUrl e routes name elems kw o = .ok u) :
     ∃ s, urlsplit u = some s ∧ s.scheme = (wanted e o.scheme o.host o.port).1.map lowerC ∧
       s.netloc = authText (wanted e o.scheme o.host o.port) := by
-  obtain ⟨path, _, hs⟩ := route_url_split e o _ _ _ (app_url_shape_override_partial e o hno hov htx hsn)
+  obtain ⟨path, _, hs⟩ := route_url_split e o _ _ _ (app_url_shape_override e o hno hov htx hsn)
     routes name pieces hr hw elems kw u hu
   exact ⟨_, hs, rfl, rfl⟩
 
@@ -298,13 +303,62 @@ example :
     schemeOk (wanted ⟨sHttp, some ['e', 'x', '.', 'c', 'o', 'm', ':', '8', '0', '8', '0'], ['l'], p80, ['/', 'a', ' ', 'b']⟩
       (some sHttps) none none).1 = true := by decide
 
-/-- **F-C17b** (recorded finding): a bracketed IPv6 host with a scheme override is cut at its first `:` — the
-result `https://[/s` is refused by the parser.  (`OriginTextsOk` excludes brackets; this is the excluded point.) -/
-theorem ipv6_override_breaks :
+/-- what "the host without its optional port" means on well-formed host texts: `name:port` ⇒ (`name`, `port`);
+`name` ⇒ (`name`, none); `[lit]:port` ⇒ (`[lit]`, `port`); `[lit]` ⇒ (`[lit]`, none) — for every name without
+`:` that does not start with `[`, every literal without `]`, every port text. -/
+theorem split_host_port_spec (name lit port : Text) (hn : ':' ∉ name) (hb : name.head? ≠ some '[') (hl : ']' ∉ lit) :
+    splitHostPort (name ++ ':' :: port) = (name, some port) ∧ splitHostPort name = (name, none) ∧
+    splitHostPort ('[' :: lit ++ ']' :: ':' :: port) = ('[' :: lit ++ [']'], some port) ∧
+    splitHostPort ('[' :: lit ++ [']']) = ('[' :: lit ++ [']'], none) := by
+  have hne : ']' ≠ '[' := by decide
+  have hl' : ']' ∉ '[' :: lit := by
+    intro m
+    rcases List.mem_cons.mp m with e | m
+    · exact hne e
+    · exact hl m
+  refine ⟨?_, ?_, ?_, ?_⟩
+  · cases name with
+    | nil => simp [splitHostPort, cut]
+    | cons c r =>
+      have hc : c ≠ '[' := fun e => hb (by simp [e])
+      have := cut_append_sep ':' (c :: r) port hn
+      unfold splitHostPort
+      split
+      · rename_i heq; simp only [List.cons_append, List.cons.injEq] at heq; exact absurd heq.1 hc
+      · exact this
+  · cases name with
+    | nil => rfl
+    | cons c r =>
+      have hc : c ≠ '[' := fun e => hb (by simp [e])
+      unfold splitHostPort
+      split
+      · rename_i heq; simp only [List.cons.injEq] at heq; exact absurd heq.1 hc
+      · exact cut_no_sep ':' _ hn
+  · have := cut_append_sep ']' ('[' :: lit) (':' :: port) hl'
+    simp only [List.cons_append] at this
+    simp only [splitHostPort, List.cons_append, this]
+  · have := cut_append_sep ']' ('[' :: lit) [] hl'
+    simp only [List.cons_append] at this
+    simp only [splitHostPort, List.cons_append, this]
+
+/-- **F-C17b** (fixed by a63b542) regression witness: `Host: [::1]:8080` with `_scheme='https'` gives
+`https://[::1]/s` — host kept, Host's port replaced by the scheme's default and elided — and the parser accepts it. -/
+theorem ipv6_override_kept :
     (routeUrl ⟨sHttp, some ['[', ':', ':', '1', ']', ':', '8', '0', '8', '0'], ['l'], p80, []⟩
       [(['s'], [.lit ['/', 's']])] ['s'] [] [] { scheme := some sHttps }).toOption
-      = some ['h', 't', 't', 'p', 's', ':', '/', '/', '[', '/', 's'] ∧
-    urlsplit ['h', 't', 't', 'p', 's', ':', '/', '/', '[', '/', 's'] = none := by decide
+      = some ['h', 't', 't', 'p', 's', ':', '/', '/', '[', ':', ':', '1', ']', '/', 's'] ∧
+    (urlsplit ['h', 't', 't', 'p', 's', ':', '/', '/', '[', ':', ':', '1', ']', '/', 's']).map (·.netloc)
+      = some ['[', ':', ':', '1', ']'] ∧
+    hostOk ['[', ':', ':', '1', ']'] = true := by decide
+
+/-- the excluded point of `hostOk`: a `[` without `]` (`Host: [::1`) is copied as it is and the result is refused
+by the parser — a malformed `Host` header is outside the property's domain. -/
+theorem unbalanced_bracket_outside :
+    (routeUrl ⟨sHttp, some ['[', ':', ':', '1'], ['l'], p80, []⟩
+      [(['s'], [.lit ['/', 's']])] ['s'] [] [] { scheme := some sHttps }).toOption
+      = some ['h', 't', 't', 'p', 's', ':', '/', '/', '[', ':', ':', '1', '/', 's'] ∧
+    urlsplit ['h', 't', 't', 'p', 's', ':', '/', '/', '[', ':', ':', '1', '/', 's'] = none ∧
+    hostOk ['[', ':', ':', '1'] = false := by decide
 
 /-- **app_url_precedence**: with an explicit `_app_url` the result starts with it and does not depend on
 `_scheme`, `_host`, `_port`, nor on the request's scheme / Host / server name / port / script name. -/
@@ -360,9 +414,8 @@ theorem path_variant_eq_url_minus_authority (e : Env) (o o' : Ovr) (hno : o.appU
       · simp at hu
 
 /-- the same through the standard parser: dropping `scheme://netloc`, as found by `urlsplit`, from the
-`route_url` result gives the `route_path` result.
-PARTIAL: needs `OriginTextsOk` (no bracketed IPv6 host); the string form above has no such restriction. -/
-theorem path_variant_by_parser_partial (e : Env) (o o' : Ovr) (hno : o.appUrl = none)
+`route_url` result gives the `route_path` result (well-formed origin texts, bracketed IPv6 hosts included). -/
+theorem path_variant_by_parser (e : Env) (o o' : Ovr) (hno : o.appUrl = none)
     (hq : o'.query = o.query) (ha : o'.anchor = o.anchor)
     (htx : OriginTextsOk (originOf e o)) (hsn : ScriptOk e)
     (routes : Routes) (name : Text) (pieces : List Piece) (hr : routes.lookup name = some pieces)
@@ -371,7 +424,7 @@ theorem path_variant_by_parser_partial (e : Env) (o o' : Ovr) (hno : o.appUrl = 
     ∃ p, routePath e routes name elems kw o' = .ok p ∧ minusAuthority u = some p := by
   obtain ⟨p, hp, hup⟩ := (path_variant_eq_url_minus_authority e o o' hno hq ha routes name elems kw).1 u hu
   refine ⟨p, hp, ?_⟩
-  have hctx := app_url_shape_partial e o hno htx hsn
+  have hctx := app_url_shape e o hno htx hsn
   obtain ⟨path, _, hs⟩ := route_url_split e o _ _ _ hctx routes name pieces hr hw elems kw u hu
   unfold minusAuthority
   rw [hs]
